@@ -455,32 +455,40 @@ fn probe_nh(fam: Family) -> Option<Nexthop> {
     }
 }
 
-/// (ENC, DEC) of a single NLRI in this build profile: ENC = standalone wire bytes, DEC = what the real decoder returns for
-/// a one-entry MP_REACH / MP_UNREACH carrying it.
+/// (ENC, DEC) of a single NLRI in this build profile: ENC = the bytes the entry adds to a one-entry MP_REACH / MP_UNREACH
+/// frame (so a withdrawn labeled prefix is measured in its withdrawn form), `err` when `encode_to` refuses it, `panic`;
+/// DEC = what the real decoder returns for that frame.
 fn probe(fam: Family, reach: bool, nlri: &Nlri) -> (Term, Term) {
-    let enc = match catch_unwind(AssertUnwindSafe(|| nlri.encode_to_bytes())) {
-        Ok(b) => Term::bytes(&b),
-        Err(_) => return (Term::atom("panic"), Term::atom("panic")),
-    };
     let caps = probe_caps(fam);
     let entries = vec![PathNlri { path_id: 0, nlri: nlri.clone() }];
-    let msg = if reach {
-        Message::Update(Update::Reach { family: fam, entries: entries.clone(), nexthop: probe_nh(fam), attr: Arc::new(base_attrs()) })
-    } else {
-        Message::Update(Update::Unreach { family: fam, entries: entries.clone() })
+    let mk = |es: Vec<PathNlri>| {
+        if reach {
+            Message::Update(Update::Reach { family: fam, entries: es, nexthop: probe_nh(fam), attr: Arc::new(base_attrs()) })
+        } else {
+            Message::Update(Update::Unreach { family: fam, entries: es })
+        }
     };
     let r = catch_unwind(AssertUnwindSafe(|| {
         let mut c = PeerCodec::negotiate(&caps, &caps);
+        let mut b0 = BytesMut::new();
+        c.encode_to(&mk(vec![]), &mut b0).ok()?;
         let mut buf = BytesMut::new();
-        c.encode_to(&msg, &mut buf).ok()?;
+        c.encode_to(&mk(entries.clone()), &mut buf).ok()?;
+        if buf.len() < b0.len() {
+            return None;
+        }
+        let enc = buf[b0.len()..].to_vec();
         let mut p = PeerCodec::negotiate(&caps, &caps);
-        Some(p.try_parse(&mut buf))
+        Some((enc, p.try_parse(&mut buf)))
     }));
-    let dec = match r {
-        Err(_) => Term::atom("panic"),
-        Ok(None) => Term::atom("err"),
-        Ok(Some(Err(_))) | Ok(Some(Ok(None))) => Term::atom("err"),
-        Ok(Some(Ok(Some(ParsedMessage::Update(ParsedUpdate::Routes { mp_reach, mp_unreach, .. }))))) => {
+    let (enc, parsed) = match r {
+        Err(_) => return (Term::atom("panic"), Term::atom("panic")),
+        Ok(None) => return (Term::atom("err"), Term::atom("err")),
+        Ok(Some(x)) => x,
+    };
+    let dec = match parsed {
+        Err(_) | Ok(None) => Term::atom("err"),
+        Ok(Some(ParsedMessage::Update(ParsedUpdate::Routes { mp_reach, mp_unreach, .. }))) => {
             let got: Vec<PathNlri> = if reach {
                 mp_reach.map(|r| r.entries).unwrap_or_default()
             } else {
@@ -488,9 +496,9 @@ fn probe(fam: Family, reach: bool, nlri: &Nlri) -> (Term, Term) {
             };
             Term::list(got.iter().enumerate().map(|(i, e)| dentry_term(reach, e, entries.get(i))).collect())
         }
-        Ok(Some(Ok(Some(_)))) => Term::list(vec![]),
+        Ok(Some(_)) => Term::list(vec![]),
     };
-    (enc, dec)
+    (Term::bytes(&enc), dec)
 }
 
 // ------------------------------------------------------------------ messages
